@@ -21,6 +21,15 @@ R4  generator: finish_rule() emits M4_HOOK_LINE_FORWARD/REWIND(n) under rule_has
     M4_HOOK_CHAR_FORWARD/REWIND(n), with the same n.
 R5  generator: geneoltbl() (in-code table) and mkeoltbl() (serialized table) emit the same thing:
     rule_has_nl[i] ? 1 : 0 for i = 1..num_rules, table length num_rules + 1.
+R7  scanner, yymore(): in every variant instantiated with M4_MODE_YYLINENO and M4_MODE_YYMORE_USED the post-match
+    newline loop of yylex starts at the first character of the NEW piece of the token, so that text kept by
+    yymore() is not counted again.  Decided by value flow, not by name: "the offset of the new piece" is the value
+    the token set-up (YY_DO_BEFORE_ACTION / yy_do_before_action) reads from a scanner register to place the token
+    text (subtracted from the text pointer with %pointer; the index of the copy destination in the text array with
+    %array).  The initial value of the loop index must be loaded from a cell that holds that value on every path to
+    the loop: the register itself if nothing overwrites it between the set-up and the loop, or a cell the set-up
+    copied it into (also through a called set-up function, by summary).  A register that the set-up resets after
+    reading it (yy_more_offset with %array), a constant, or anything computed fails.
 """
 import os, re
 import ir, flow, variants
@@ -1122,6 +1131,230 @@ def r3(ctx):
     rep.setcount('scanner_functions_analysed', fnc)
     return n_with, n_without
 
+# ================================================================== R7 (yymore: where the post-match newline loop starts)
+
+import scanner_ids as SID
+
+def more_variants(ctx):
+    """own probes: %array + yymore + yylineno in the back ends where the core list has no such variant (C++ refuses %array)"""
+    vs = [variants.Variant('c09_more_%s_array' % b, b, variants.NOREJ, ['array', 'yylineno']) for b in ('r', 'c99', 'go')]
+    variants.instantiate(ctx.art, vs, 'c09')
+    for v in vs:
+        if v.ll is None:
+            ctx.rep.broken('own %%array/yymore/yylineno probe %s did not instantiate/compile: %s' % (v.name, (v.stderr or getattr(v, 'll_err', ''))[-300:]))
+    return vs
+
+class OffsetFlow:
+    """Which cells hold "the offset of the new piece of the token text" at a program point of one scanner variant.
+
+    Anchor (no yymore register is named): an *offset load* is a load of an integer scanner register other than the token length
+    whose value flows, through registers, into (i) a value stored to the text pointer (yytext_ptr -= off) or (ii) the index of an
+    address into the text array (&yytext[off], the destination of the copy).  At such a load the register holds the offset by
+    definition.  From there: a store of a (cast of a) load that holds the offset into another cell makes that cell hold it; any
+    other store to a cell, and any call of a function that may store it, ends that; a call of a function at whose every return a
+    cell holds the offset (summary) makes it hold it in the caller."""
+    def __init__(s, sc):
+        s.sc = sc; s._res = {}; s._o = {}; s._src = {}; s._exit = {}; s._may = {}; s._busy = set()
+        s.cg = sc.callgraph()
+    def res(s, f):
+        if f not in s._res: s._res[f] = ir.Resolver(f)
+        return s._res[f]
+    def cell(s, f, ptr, locals_too=True):
+        """cell designated by address `ptr` when it is a scalar local or a scalar scanner register, else None"""
+        l = s.res(f).loc(ptr)
+        if l is None: return None
+        if l[0] == 'local': return ('local', f.name, l[1]) if locals_too else None
+        if l[0] == 'global' and s.sc.backend == 'nr': return ('global', SID.unprefix(l[1]))
+        if l[0] == 'field' and (l[1] == 'yyguts_t' or re.fullmatch(r'((yy|foo|bar)?FlexLexer)(\.base)?', l[1])): return ('field', l[2])
+        return None
+    def is_text_ptr(s, f, ptr):
+        l = s.res(f).loc(ptr)
+        return s.sc.is_var(l, 'yytext') or s.sc.is_var(l, 'yytext_ptr')
+    def offset_loads(s, f):
+        """{load instruction: cell} of the offset loads of f"""
+        if f in s._o: return s._o[f]
+        out = {}
+        for x in f.ins:
+            roots = []
+            if x.op == 'store' and x.ops[0][0] == 'reg' and s.is_text_ptr(f, x.ops[1]): roots = [x.ops[0]]
+            elif x.op == 'getelementptr' and s.sc.is_var(s.res(f).loc(x.ops[0]), 'yytext'): roots = list(x.ops[1:])       # the text array itself
+            for r in roots:
+                for y in flow.value_slice(f, r):
+                    if y.op != 'load' or y.ty is None or y.ty.k != 'int': continue
+                    c = s.cell(f, y.ops[0], locals_too=False)
+                    if c is None or s.sc.is_var(s.res(f).loc(y.ops[0]), 'yyleng'): continue
+                    out[y] = c
+        s._o[f] = out
+        return out
+    def may_store(s, f):
+        """register cells f may store, directly or through the functions of the scanner it calls"""
+        if f.name in s._may: return s._may[f.name]
+        seen = {f.name}; work = [f.name]; out = set()
+        while work:
+            g = s.sc.mod.functions.get(work.pop())
+            if g is None: continue
+            for x in g.ins:
+                if x.op == 'store':
+                    c = s.cell(g, x.ops[1], locals_too=False)
+                    if c is not None: out.add(c)
+            for n in s.cg.get(g.name, ()):
+                if n not in seen: seen.add(n); work.append(n)
+        s._may[f.name] = out
+        return out
+    def callees(s, c):
+        n = s.sc.callee(c)
+        return s.sc.fns(n) if n else []
+    def exit_valued(s, g):
+        """register cells that hold the offset at every return of g"""
+        if g.name in s._exit: return s._exit[g.name]
+        if ('exit', g.name) in s._busy or not g.blocks: return set()
+        s._busy.add(('exit', g.name))
+        cand = set(s.offset_loads(g).values())
+        for x in g.ins:
+            if x.op == 'store':
+                c = s.cell(g, x.ops[1], locals_too=False)
+                if c is not None: cand.add(c)
+            elif x.op in ('call', 'invoke'):
+                for h in s.callees(x):
+                    if h is not g: cand |= s.exit_valued(h)
+        rets = [x for x in g.ins if x.op == 'ret']
+        out = {c for c in cand if rets and all(s.valued(g, c, r) for r in rets)}
+        s._busy.discard(('exit', g.name))
+        s._exit[g.name] = out
+        return out
+    def copied_load(s, f, v):
+        """v is (an integer cast of) a load of a cell: (load, cell) or None"""
+        d = f.def_of(strip_int(f, v))
+        if d is None or d.op != 'load': return None
+        c = s.cell(f, d.ops[0])
+        return (d, c) if c is not None else None
+    def sources_kills(s, f, c):
+        k = (f.name, c)
+        if k in s._src: return s._src[k]
+        S = [o for o, oc in s.offset_loads(f).items() if oc == c]; K = []
+        for x in f.ins:
+            if x.op == 'store' and s.cell(f, x.ops[1]) == c:
+                cl = s.copied_load(f, x.ops[0])
+                if cl is not None and cl[1] != c and (k, cl[0]) not in s._busy:
+                    s._busy.add((k, cl[0]))
+                    good = s.valued(f, cl[1], cl[0])
+                    s._busy.discard((k, cl[0]))
+                    if good: S.append(x); continue
+                K.append(x)
+            elif x.op in ('call', 'invoke') and c[0] != 'local':
+                hs = [h for h in s.callees(x) if h is not f]
+                if hs and all(c in s.exit_valued(h) for h in hs): S.append(x)
+                elif any(c in s.may_store(h) for h in hs): K.append(x)
+        s._src[k] = (S, K)
+        return S, K
+    def valued(s, f, c, p):
+        """cell c holds the offset when instruction p of f runs (on every path from the function entry)"""
+        S, K = s.sources_kills(f, c)
+        if p in S and p.op == 'load': return True
+        if not S: return False
+        cfg = s.sc.prog.cfg(f, cut=True)
+        ol = [o for o in S if o.op == 'load']
+        if ol and p.op == 'load' and s.cell(f, p.ops[0]) == c:
+            # read just before the set-up uses the register: every path from p passes an offset load of c with no other definition in between
+            r = cfg.reach(p, avoid=ol)
+            if not any(y.op == 'ret' for y in r) and not any(y in r for y in K) and not any(y in r for y in S if y.op != 'load'): return True
+        if p in cfg.reach(f.entry.ins[0], avoid=S, include_start=True): return False
+        return not any(p in cfg.reach(k_, avoid=S) for k_ in K)
+    def why_not(s, f, c, p):
+        S, K = s.sources_kills(f, c)
+        if not S: return 'nothing in %s gives it the offset the token set-up used' % base(f.name), None
+        cfg = s.sc.prog.cfg(f, cut=True)
+        for k_ in K:
+            if p in cfg.reach(k_, avoid=S):
+                return 'it is overwritten at %s after the set-up read it and before the loop' % where(k_), k_
+        return 'a path from the entry of %s reaches the loop without passing the token set-up' % base(f.name), None
+
+def cell_str(c):
+    return c[-1] if c else '?'
+
+def newline_loops(sc9, yl):
+    """post-match newline loops of yylex: [(increment site, index local (alloca name), [initialising stores])]"""
+    out = []
+    cfg = sc9.prog.cfg(yl, cut=False); res = sc9.resolver(yl)
+    for x, k in sc9.sites(yl, ('inc',)):
+        if not sc9.in_loop(yl, x): continue
+        idx = None
+        for kind, info, br in sc9.guards(yl, x):
+            if kind != 'nlcmp' or info[1] is None or not mentions(info[1], YYTEXT_NAMES): continue
+            d = yl.def_of(strip_int(yl, info[0]))
+            ad = yl.def_of(d.ops[0]) if d is not None and d.op == 'load' else None
+            if ad is None or ad.op != 'getelementptr': continue
+            o = origin(yl, ad.ops[-1])
+            if o[0] == 'local': idx = o[1]
+        if idx is None: continue
+        # the loop is bounded by a comparison of the index with the token length
+        bounded = False
+        for br, succ in cfg.control_deps_closure(x.blk):
+            d = yl.def_of(br.ops[0]) if br.op == 'br' and br.ops else None
+            if d is None or d.op != 'icmp': continue
+            for a, b in ((d.ops[0], d.ops[1]), (d.ops[1], d.ops[0])):
+                lb = load_loc(yl, res, b)
+                if origin(yl, a) == ('local', idx) and lb is not None and mentions(lb, YYLENG_NAMES): bounded = True
+        if not bounded: continue
+        inits = []
+        for st in yl.ins:
+            if st.op != 'store' or st.ops[1] != ('reg', idx): continue
+            if any(y.op == 'load' and y.ops[0] == ('reg', idx) for y in flow.value_slice(yl, st.ops[0])): continue      # the step ++i
+            inits.append(st)
+        out.append((x, idx, inits))
+    return out
+
+def r7(ctx):
+    rep = ctx.rep
+    vs = [v for v in ctx.variants()] + more_variants(ctx)
+    n = 0; covered = set(); vac = 0
+    for v in vs:
+        modes = variants.mode_symbols(v)
+        if 'M4_MODE_YYLINENO' not in modes: continue
+        if 'M4_MODE_YYMORE_USED' not in modes:
+            vac += 1; continue
+        arr = 'M4_MODE_YYTEXT_IS_ARRAY' in modes
+        sc = SID.scanner(v); mod = sc.mod; prog = sc.prog
+        sc9 = Scanner(v, mod, prog)
+        yls = [f for f in sc.fns('yylex') if any(x.op == 'switch' and len(x.cases or ()) >= 3 for x in f.ins)]
+        if not yls: rep.broken('C09.R7: no yylex in variant %s' % v.name)
+        yl = yls[0]
+        loops = newline_loops(sc9, yl)
+        if not loops:
+            rep.note('C09.R7: %s: no post-match newline loop recognised in yylex (reported by C09.R3 post-match-count)' % v.name); continue
+        fl = OffsetFlow(sc)
+        key = 'C09.R7:%s:yylex:newline-loop-base' % skel(v)
+        for x, idx, inits in loops:
+            if not inits: rep.broken('C09.R7: %s: the index %s of the newline loop @%s is never initialised' % (v.name, idx, x.line))
+            for st in inits:
+                n += 1; covered.add((v.backend, 'array' if arr else 'pointer'))
+                tail = ': the newlines of text kept by yymore() are counted again for every later piece of the token [variant %s]' % v.name
+                val = strip_int(yl, st.ops[0])
+                cl = fl.copied_load(yl, val)
+                if val[0] == 'int':
+                    rep.fail('C09.R7', key, where(st), 'with yymore() in use the post-match newline loop of yylex starts at the constant %d, not at the first '
+                             'character of the new piece of the token%s' % (val[1], tail), variant=v.describe(), replay_input=R7_REPLAY)
+                elif cl is None:
+                    rep.fail('C09.R7', key, where(st), 'the initial index of the post-match newline loop of yylex is not a plain copy of a cell (computed value); it cannot be '
+                             'shown to be the offset of the new piece of the token%s' % tail, variant=v.describe(), replay_input=R7_REPLAY)
+                elif fl.valued(yl, cl[1], cl[0]):
+                    rep.ok('C09.R7', '%s yylex:%s newline loop starts at %s, which holds the offset the token set-up placed the new text at (%s)' % (
+                        v.name, st.line, cell_str(cl[1]), '%array' if arr else '%pointer'))
+                else:
+                    why, at = fl.why_not(yl, cl[1], cl[0])
+                    rep.fail('C09.R7', key, where(st), 'the post-match newline loop of yylex starts at %s, which does not hold the offset of the new piece of the token when '
+                             'the loop is entered (%s)%s' % (cell_str(cl[1]), why, tail), variant=v.describe(), replay_input=R7_REPLAY)
+    need = {(b, 'pointer') for b in variants.BACKENDS} | {(b, 'array') for b in ('nr', 'r', 'c99', 'go')}
+    if not need <= covered:
+        rep.broken('C09.R7: no newline loop analysed for %s' % sorted(need - covered))
+    rep.vacuous.append('C09.R7: %d yylineno variants without yymore(): the loop starts at the constant 0, nothing to decide' % vac)
+    rep.note('C09.R7: %d loop initialisations in yylineno+yymore variants; %d yylineno variants without yymore are vacuous' % (n, vac))
+    rep.setcount('r7_newline_loop_bases', n)
+    return n
+
+R7_REPLAY = ('%option yylineno noyywrap array\n%%\n"a\\n"  { yymore(); }\n"b\\n"  { yymore(); }\n"c"  { }\n.|\\n  { }\n%%\n'
+             'int main(void){ yylex(); printf("%d\\n", yylineno); return 0; }\n# input `a\\nb\\nc`: two newlines, must print 3')
+
 # ================================================================== driver
 
 def run(ctx):
@@ -1136,13 +1369,17 @@ def run(ctx):
     rep.setcount('eol_table_rules', c09_tbl.run(ctx, rep))
     rep.floor('C09.R6', 20, 'newline-capable rules of the language probes x 2 table representations')
     rep.floor('C09.R5', 7, 'two table bodies, agreement, length, two call sites under do_yylineno, fwrite')
+    r7(ctx)
+    rep.floor('C09.R7', 18, 'one loop initialisation per yylineno+yymore variant: 16 %pointer (all five back ends) and 4 %array (nr, r, c99, go)')
     rep.undecided += ['the numeric value of yylineno for any input or history',
                       'that rule_has_nl[] is exact (it may over-approximate: a flagged rule that never matches newline only costs time)',
                       'that cclnegate() is applied at most once per class (a second call would flip ccl_has_nl[] again)',
                       'yylineno across buffer switches in the non-reentrant C scanner (one global, not per buffer)',
                       'bounds of the rewind loops (that yyless/trailing-context scan exactly the bytes given back)',
                       'variable trailing context and yyreject(): the count relies on yytext/yyleng being final before the post-match loop',
-                      'actions that change yytext/yyleng by hand']
+                      'actions that change yytext/yyleng by hand',
+                      'C09.R7 takes "the offset of the new piece" from the register the token set-up itself uses to place the text; that yymore() and the '
+                      'scan loop compute that register correctly is C08; a set-up that keeps the offset in a local temporary is not followed']
     rep.assumptions += ['clang -O0 IR of flex and of the instantiated skeletons is a faithful rendering of the C/C++ sources',
                         "reverse_case() maps only newline to newline (tolower/toupper in the C locale)",
                         'the generated parse.c names each production in the comment of its case label (used for instance names only)',
@@ -1153,4 +1390,5 @@ def run(ctx):
         'ccl_has_nl[] maintenance in ccl.c, the LINE/CHAR hook pairing in finish_rule and the agreement of the in-code and serialized eol tables are checked the same way. '
         'Scanner side on the IR of %d instantiated variants with M4_MODE_YYLINENO (all five back ends, incl. 10 own probes whose rules can match newline in trailing context and '
         'yyless) and %d without: control-dependence of every line-counter increment/decrement on a comparison with newline, the post-match loop under '
-        'yy_rule_can_match_eol[yy_act], yyunput/yyinput path coverage, rewind loops placed before yyleng/yy_c_buf_p change; who-writes = 0 without the option.' % (n_with, n_without))
+        'yy_rule_can_match_eol[yy_act], yyunput/yyinput path coverage, rewind loops placed before yyleng/yy_c_buf_p change; who-writes = 0 without the option; '
+        'with yymore() the start index of the post-match loop is traced by value flow (copies, overwrites, callee summaries) to the offset the token set-up used.' % (n_with, n_without))
